@@ -113,7 +113,7 @@ def build(job):
     workload = make_workload(job["wl"])
     mon = DedupMonitor()
     ex = Explorer(w, workload, [mon], job.get("budget"), trust_negative=job["trust"], late_restart=True,
-                  max_states=job.get("max_states", 200000), time_cap=job.get("time_cap", 1200))
+                  max_states=job.get("max_states", 200000), time_cap=job.get("time_cap", 600))
     ex._mon = mon
     return ex
 
